@@ -161,7 +161,7 @@ def make_atoms(rng, m, geom):
             for _p in range(npair):
                 i, j = rng.choice(m, 2, replace=False)
                 pos[i] = pos[j] + _unit(rng, 1)[0] * float(rng.choice([0.05, 0.0500001, 0.07, 0.1, 0.2, 0.35]))
-        if mon.min_atom_distance(pos) >= 0.05:
+        if mon.min_atom_distance(pos) >= 0.05 * (1 - 1e-9):
             return np.ascontiguousarray(pos, dtype=float)
     return None
 
